@@ -32,7 +32,8 @@ type Runner struct {
 	// oracle state
 	uploads      map[string]map[string]bool // content id -> instance names with a successful upload
 	acVersions   map[int]map[string]bool    // object -> successfully uploaded values
-	touched      map[int]int64              // object -> NewBlock count at its last successful touch
+	touched      map[int]int64              // object -> NewBlock count at the start of its last successful touch
+	touchedClean map[int]bool               // ... and whether that call allocated no block
 	corrupted    bool
 	discards     *discardReader
 	discardsSeen float64
@@ -272,7 +273,13 @@ func (r *Runner) checkData(obj int, data []byte, what string) {
 	}
 }
 
-func (r *Runner) noteTouch(obj int) { r.touched[obj] = r.st.Alloc.News.Load() }
+// noteTouch records a successful touch. The guarantee is counted from the lookup inside the call, so blocks the
+// call itself allocated afterwards (refreshing this or other objects) count against it: the baseline is the
+// NewBlock count at the start of the call. clean = the call allocated no block at all.
+func (r *Runner) noteTouch(obj int, newsAtStart int64) {
+	r.touched[obj] = newsAtStart
+	r.touchedClean[obj] = r.st.Alloc.News.Load() == newsAtStart
+}
 
 // expectSurvivor: C05 - obj was touched; is it still within its guaranteed window?
 func (r *Runner) mustSurvive(obj int) bool {
@@ -292,9 +299,10 @@ func (r *Runner) mustSurvive(obj int) bool {
 func (r *Runner) get(obj int) {
 	id := r.nextOp
 	r.nextOp++
-	must := r.mustSurvive(obj)
 	writesBefore, newsBefore := r.devWrites(), r.st.Alloc.News.Load()
 	kind, data := consume(r.st.BA.Get(context.Background(), r.Digest(obj)))
+	// evaluated with the block count *after* the call: blocks the call itself allocated count against the guarantee
+	must := r.mustSurvive(obj)
 	impl := kind
 	if kind == "data" {
 		impl = "data " + bytesLine(data)
@@ -325,11 +333,11 @@ func (r *Runner) get(obj int) {
 	switch kind {
 	case "data":
 		r.checkData(obj, data, "Get")
-		if _, was := r.touched[obj]; was && r.devWrites() != writesBefore && r.touched[obj] == newsBefore {
+		if _, was := r.touched[obj]; was && r.touchedClean[obj] && r.devWrites() != writesBefore && r.touched[obj] == newsBefore {
 			// touched, nothing allocated since, yet this read wrote to the medium
 			r.oracle("C05", "repeating a read immediately wrote data again", fmt.Sprintf("Get of object %d", obj))
 		}
-		r.noteTouch(obj)
+		r.noteTouch(obj, newsBefore)
 	case "not-found":
 		if must {
 			r.oracle("C05", "an object that was just read or reported present was lost before old_blocks+1 further blocks were allocated",
@@ -372,11 +380,12 @@ func (r *Runner) findMissing(objs []int) {
 		}
 	}
 	set := sb.Build()
+	newsAtStart := r.st.Alloc.News.Load()
+	missingSet, err := r.st.BA.FindMissing(context.Background(), set)
 	must := map[int]bool{}
 	for _, o := range objs {
 		must[o] = r.mustSurvive(o)
 	}
-	missingSet, err := r.st.BA.FindMissing(context.Background(), set)
 	missing := setOf(missingSet)
 	impl := ""
 	if err != nil {
@@ -480,7 +489,7 @@ func (r *Runner) findMissing(objs []int) {
 							fmt.Sprintf("FindMissing: object %d (instance %q)", o2, r.objs[o2].Instance))
 					}
 				}
-				r.noteTouch(o)
+				r.noteTouch(o, newsAtStart)
 			}
 		}
 	} else if Code(err) == "err integrity" && !r.corrupted {
@@ -603,7 +612,7 @@ func (r *Runner) drainComposites() {
 func RunCase(model *hx.Model, dr *discardReader, name string, script []string) *Runner {
 	cfg, ok := ParseConfig(script[0])
 	r := &Runner{model: model, ev: make(chan event), pending: map[int]*pendingOp{}, name: name, script: script,
-		uploads: map[string]map[string]bool{}, acVersions: map[int]map[string]bool{}, touched: map[int]int64{}, discards: dr, nextOp: 1000}
+		uploads: map[string]map[string]bool{}, acVersions: map[int]map[string]bool{}, touched: map[int]int64{}, touchedClean: map[int]bool{}, discards: dr, nextOp: 1000}
 	if !ok {
 		return r
 	}
@@ -691,6 +700,38 @@ func RunCase(model *hx.Model, dr *discardReader, name string, script []string) *
 	for _, id := range ids {
 		for r.pending[id] != nil {
 			r.stepOp(id)
+		}
+	}
+	// C04 (no leak): with nothing in flight and a spare block configured, the store must be able to
+	// absorb a full turn-over of block-sized uploads; a block that stays pinned forever shows up as UNAVAILABLE.
+	if b := r.st.Cfg.BM; b.Alloc == "dev" && b.Spare >= 1 && len(r.pending) == 0 {
+		size := b.BlockSize()
+		if r.st.Cfg.Kind == "ac" {
+			size -= 8
+		}
+		n := b.Old + b.Cur + b.New + b.Spare + 2
+		for i := 0; i < n && size > 0; i++ {
+			r.objs = append(r.objs, Object{Size: size, Alias: -1, Instance: "probe"})
+			id := 900 + i
+			r.startPut(id, len(r.objs)-1, i, "w", "none")
+			for r.pending[id] != nil {
+				r.stepOp(id)
+			}
+			last := ""
+			for j := len(r.Impl) - 1; j >= 0; j-- {
+				if strings.Contains(r.Lines[j], "put.end") || strings.Contains(r.Lines[j], "put.begin") {
+					last = r.Impl[j]
+					if last == "-" {
+						last = "ok"
+					}
+					break
+				}
+			}
+			if last == "err unavailable" {
+				r.oracle("C04", "capacity is permanently lost: with nothing in flight and a spare block configured an upload fails with UNAVAILABLE",
+					fmt.Sprintf("probe upload %d of %d bytes", i, size))
+				break
+			}
 		}
 	}
 	// C04 (reader balance) at quiescence
